@@ -228,3 +228,43 @@ func networks(t *testing.T) {
 		})
 	})
 }
+
+// handedToJS covers the last clause of the property: once a Go function was handed to
+// JavaScript the runtime cannot know that nothing will ever call it, so "all goroutines are
+// asleep" must not be reported; without such a function it must be.
+func handedToJS() {
+	type scen struct {
+		name, body string
+		deadlock   bool
+	}
+	scens := []scen{
+		{"no function handed out", "", true},
+		{"function stored in a global", "js.Global.Set(\"cb\", func() { out(\"called\") })", false},
+		{"function passed as an argument", "js.Global.Get(\"Object\").Call(\"keys\", map[string]interface{}{\"f\": func() {}})", false},
+		{"function inside a wrapper object", "js.Global.Set(\"w\", js.MakeWrapper(&svc{}))", false},
+		{"MakeFunc result", "js.Global.Set(\"mf\", js.MakeFunc(func(this *js.Object, args []*js.Object) interface{} { return nil }))", false},
+	}
+	for _, sc := range scens {
+		src := "package main\n\nimport \"github.com/gopherjs/gopherjs/js\"\n\nvar _ = js.Global\n\ntype svc struct{}\n\nfunc (s *svc) Ping() int { return 1 }\n\nfunc main() {\n\t" + sc.body + "\n\tout(\"blocking\")\n\tdone := make(chan int)\n\tgo func() {\n\t\tout(\"worker blocks too\")\n\t\t<-done\n\t}()\n\t<-done\n}\n"
+		c := drv.NewCase("c03h_", map[string]string{"main.go": src}, true)
+		jsPath, _, err := c.BuildJS(drv.BuildOpts{}, "out")
+		if err != nil {
+			ev.Violation("GopherJS build of the handed-to-JavaScript scenario failed: "+err.Error(), c.ReproFiles())
+			c.Remove()
+			continue
+		}
+		o := drv.RunNode(jsPath, nil, drv.NodeOpts{})
+		ev.Case("handed-to-js:"+sc.name, true)
+		ev.Count("handed_to_js_scenarios", 1)
+		want := "exit0"
+		if sc.deadlock {
+			want = "deadlock"
+		}
+		if o.End != want || len(o.Trace) != 2 {
+			files := c.ReproFiles()
+			files["gopherjs.txt"] = o.String() + "\n" + o.Stderr
+			ev.Violation(fmt.Sprintf("scenario %q: every goroutine is blocked for ever; expected the program to end as %s after two lines, got %s with %d lines", sc.name, want, o.End, len(o.Trace)), files)
+		}
+		c.Remove()
+	}
+}
